@@ -28,6 +28,7 @@ try:
     verdict = {}
     # (e) demo without the patch passes
     p = sh("sh SEED/%s/demo.sh" % n); verdict["demo_without_passes"] = p.returncode == 0
+    sh("git clean -fdq -e SEED")   # a demo.sh that leaves its test file in place must not count as an "existing" test
     p = sh("git apply SEED/%s/patch.diff" % n); verdict["applies"] = p.returncode == 0
     p = sh("go build -p 4 " + " ".join(pkgs)); verdict["builds"] = p.returncode == 0
     p = sh("go vet " + " ".join(pkgs)); verdict["vets"] = p.returncode == 0
